@@ -41,6 +41,10 @@ def main():
     rnd = random.Random(seed)
     types, g1 = abitypes.gen("level1", 3 if tier == "quick" else 5, "c06a")
     t2, g2 = abitypes.gen("level2", 2 if tier == "quick" else 4, "c06b")
+    t3, g3 = abitypes.gen("strings", 5, "c06c")          # strings of 254..510 bytes (length prefix around one byte)
+    chk.add_tlc(g3)
+    if g3.error or not t3:
+        chk.machinery_failure("ARC4Gen (strings) failed: %s" % g3.error)
     for g in (g1, g2):
         chk.add_tlc(g)
         if g.error:
@@ -48,6 +52,7 @@ def main():
     if tier == "quick":
         t2 = rnd.sample(t2, min(len(t2), 60))
     types += t2
+    types += t3
     # ---- type-level facts: TLA+ vs PyTeal vs algosdk
     facts = 0
     for d in types:
@@ -104,6 +109,24 @@ def main():
                 chk.report("C06/literal-out-of-range-accepted/uint%d" % bits, "uint%d.set(%d) accepted" % (bits, bad), {"bits": bits, "value": bad})
             except abitypes.replay.PYTEAL_ERRORS:
                 pass
+        # an Int literal that does not fit: refused when built / compiled, or the program fails - never a truncated encoding
+        for bad in ((2 ** bits, 2 ** bits + 5, 70000 if bits == 16 else 2 ** 63) if bits < 64 else ()):
+            fails = {"main": N("Seq", "u", a=[N("Err", "n"), N("Int", n=[1])]), "rt": [], "vars": [], "mode": "app"}
+            rs = []
+            try:
+                x = cls()
+                ast = pt.Seq(x.set(pt.Int(bad)), pt.Log(x.encode()), pt.Int(1))
+                for v in versions:
+                    r = abiprog.compile_ast(ast, v)
+                    r["st"] = {"v": v}
+                    rs.append(r)
+            except abitypes.replay.PYTEAL_ERRORS:
+                rs = []
+            if any("teal" in r for r in rs):
+                e, meta = pipeline.make_entry(len(entries) + 1, fails, rs, batch.default_cx(fails))
+                entries.append(e)
+                metas.append(meta)
+                descr.append("uint%d set from the literal Int(%d)" % (bits, bad))
         if bits < 64:
             x = cls()
             ast = pt.Seq(x.set(pt.Btoi(pt.Txn.application_args[0])), pt.Log(x.encode()), pt.Int(1))
